@@ -5,6 +5,8 @@
  */
 
 use alloc::string::ToString;
+use alloc::vec::Vec;
+use lazy_static::*;
 use regex::Regex;
 use alloc::borrow::ToOwned;
 use crate::config::SmartCalcConfig;
@@ -12,9 +14,21 @@ use crate::tokinizer::{Tokinizer, read_currency};
 use crate::types::{TokenType};
 use crate::token::ui_token::{UiTokenType};
 
+lazy_static! {
+    /* Based integer literals (0xAF, 0o17, 0b01): their digits and letters are not an amount followed by a currency code */
+    static ref BASED_NUMBER: Regex = Regex::new(r"\b0[xX][0-9a-fA-F]+|\b0[oO][0-7]+|\b0[bB][01]+").unwrap();
+}
+
 pub fn money_regex_parser(config: &SmartCalcConfig, tokinizer: &mut Tokinizer, group_item: &[Regex]) {
+    let based_numbers: Vec<(usize, usize)> = BASED_NUMBER.find_iter(&tokinizer.data).map(|item| (item.start(), item.end())).collect();
+
     for re in group_item.iter() {
         for capture in re.captures_iter(&tokinizer.data.to_owned()) {
+            let (money_start, money_end) = (capture.get(0).unwrap().start(), capture.get(0).unwrap().end());
+            if based_numbers.iter().any(|(start, end)| money_start < *end && *start < money_end) {
+                continue;
+            }
+
             /* Check price value */
             let price = match capture.name("PRICE").unwrap().as_str().replace(&config.thousand_separator[..], "").replace(&config.decimal_seperator[..], ".").parse::<f64>() {
                 Ok(price) => match capture.name("NOTATION") {
